@@ -1,23 +1,23 @@
-SPECIFICATION TraceSpec
+SPECIFICATION LiveSpec
 CONSTANTS
-  Users = {}
-  RDenoms = {}
+  Users = {"u1"}
+  RDenoms = {"rw1"}
   LP = "lpt-1"
   FeeDenom = "stake"
   RecordHist = FALSE
-  MaxH = 0
-  MaxStake = 0
-  MaxPools = 0
+  MaxH = 12
+  MaxStake = 1
+  MaxPools = 1
   Prec = 10
-  InitLP = 0
-  InitR = 0
-  Fee = 0
+  InitLP = 1
+  InitR = 7
+  Fee = 1
   TaxNum = 0
   TaxDen = 1
-  RewardTotals = {}
-  RewardRates = {}
-  MaxStart = 0
-  TopUps = {}
+  RewardTotals = {4}
+  RewardRates = {1, 2}
+  MaxStart = 1
+  TopUps = {2}
   Donations = {}
   Creators = {"u1"}
   Proposers = {}
@@ -35,11 +35,7 @@ CONSTANTS
   BurnPre = FALSE
   BurnQ = FALSE
   BurnV = FALSE
-INVARIANTS
-  Monitor
-  Coverage
-  Report
-  DriftReport
-POSTCONDITION TraceAccepted
+  LiveMode <- LiveOn
+PROPERTIES
+  Live_PoolEnds
 CHECK_DEADLOCK FALSE
-ALIAS Alias
